@@ -28,10 +28,11 @@ const (
 	fixTrunc = iota
 	fixDel
 	fixLen
+	fixStruct // explicitly constructed adversarial input (nesting chains, peer scripts)
 )
 
-var fixKindName = [...]string{"fix-trunc", "fix-del", "fix-len"}
-var fixCounter = [...]string{"exhaustive_truncations", "exhaustive_byte_deletions", "exhaustive_length_field_deltas"}
+var fixKindName = [...]string{"fix-trunc", "fix-del", "fix-len", "structured"}
+var fixCounter = [...]string{"exhaustive_truncations", "exhaustive_byte_deletions", "exhaustive_length_field_deltas", "structured_adversarial_inputs"}
 
 type fixedOp struct {
 	kind  uint8
@@ -49,6 +50,17 @@ type fixedPlan struct {
 	ops  []fixedOp
 	// lens are the length-field positions addressed by fixLen ops.
 	lens []fixedLenPos
+	// explicit, if set, constructs input i of a plan of fixStruct ops.
+	explicit func(i int) *Input
+}
+
+// newExplicitPlan is a plan of n explicitly constructed inputs.
+func newExplicitPlan(n int, gen func(i int) *Input) fixedPlan {
+	p := fixedPlan{explicit: gen}
+	for i := 0; i < n; i++ {
+		p.ops = append(p.ops, fixedOp{kind: fixStruct, a: int32(i)})
+	}
+	return p
 }
 
 type fixedLenPos struct {
@@ -145,6 +157,9 @@ func newFixedPlanLimits(rng *rand.Rand, s *Seed, aux, tag string, wrap func([]by
 
 func (p *fixedPlan) input(i int) *Input {
 	op := p.ops[i]
+	if op.kind == fixStruct {
+		return p.explicit(int(op.a))
+	}
 	b := p.seed.Data
 	var out []byte
 	switch op.kind {
